@@ -195,6 +195,9 @@ def _pykey(tok):
 # ------------------------------------------------------------------------------------------- C08
 
 ALPHABET = ["I1", "D3ff0000000000000", "T", "L1", "S61", "B61", "Y61", "t( I1 S61 )", "t( D3ff0000000000000 Y61 )", "t( L1 B61 )"]
+# keys in which the non-transitive ByteString sits deeper: inside a nested tuple, a Ref id, Call arguments
+NESTED = ["t( I1 t( S61 ) )", "t( I1 t( B61 ) )", "t( I1 t( Y61 ) )", "R( S61 )", "R( B61 )", "R( Y61 )",
+          "c( C6d.6e S61 )", "c( C6d.6e B61 )", "c( C6d.6e Y61 )", "R( t( S61 ) )", "R( t( Y61 ) )", "R( t( B61 ) )"]
 
 
 def ref_history(ops):
@@ -253,9 +256,15 @@ class C08:
                     continue
                 hs.append([(op, k, f"I{100 + i}") for i, (op, k) in enumerate(combo)])
         ctx.exhaustive = True
+        # every history of length <= 3 over each family of nested ByteString / string / Bytes keys
+        for fam in (NESTED[0:3], NESTED[3:6], NESTED[6:9], NESTED[9:12], ["S61", "B61", "Y61", "t( S61 )", "t( B61 )", "t( Y61 )"]):
+            opsn = [("S", k) for k in fam] + [("D", k) for k in fam] + [("G", k) for k in fam]
+            for n in range(1, 4):
+                for combo in itertools.product(opsn, repeat=n):
+                    hs.append([(op, k, f"I{100 + i}") for i, (op, k) in enumerate(combo)])
         for _ in range(ctx.scale(25, 300)):
             n = rng.choice([200, 600, 3000]) if ctx.thorough else rng.choice([100, 300, 800])
-            keys = [rand_key(rng) for _ in range(rng.choice([12, 40, 150, 500]))] + ALPHABET
+            keys = [rand_key(rng) for _ in range(rng.choice([12, 40, 150, 500]))] + ALPHABET + NESTED
             keys = [k for k in keys if "X" not in k]
             h = []
             phase_grow = True
@@ -316,7 +325,7 @@ class C08:
                         ctx.disagree(line[:3000] + f"  [op {i}]", a[:300], m[:300], "Get result not among the model's candidates")
                     recent = cands[-1] if cands else "nil"
                     if got != recent:
-                        if len(cands) >= 2 and got in cands and k.startswith(("Y", "t(")):
+                        if len(cands) >= 2 and got in cands and "Y" in k:
                             ctx.violate("Get returned an older value than the most recently set under an equal key", line[:3000] + f"  [op {i}]",
                                         recent, got, known="K2")
                         else:
